@@ -28,6 +28,18 @@ CHECKS = {
         note=TB + 'Exception classes are not compared (the property fixes only "raises").',
         technique='Lean 4 proof over a hand-written model + differential correspondence + reference-model oracle',
         ref='§4 C03'),
+    'C16': dict(
+        text='Lean model of the history log (global counter, per-thread tracking switch, every store write '
+             'going through the two hooks that log) with theorems by induction over arbitrary edit histories: '
+             'last entry = current value, strictly increasing unique sequence numbers, suspended edits are '
+             'silent, constructor establishes the invariant, history never read by build, location provider '
+             'returns the user frame when inner frames are excluded, table obligation on the regenerated '
+             'exclusion list. Correspondence on generated histories incl. tag edits and 4 real threads.',
+        note=TB + 'Location attribution is proved for the provider model and tied to the source through the '
+             'regenerated tables (modules calling History.add_* vs. _exclude_locations); one open finding '
+             '(tagging.py not excluded) is listed in known_findings.json.',
+        technique='Lean 4 proof (invariants by induction over edit histories) + differential correspondence + oracle',
+        ref='§4 C16'),
 }
 
 NOT_YET = {}
